@@ -19,7 +19,9 @@ TECHNIQUE = ("model-based generation of event histories with injected connection
 RULE = ("A case is a history over one fake node reached through the real Session (v1-v5, DSE_V1 for the paging part): "
         "send tagged requests (client timeout 0.3/1/5/none), answer some, let some time out, then fail the connection "
         "at a generated point by: socket reset, peer close, an undecodable RESULT body, a server ProtocolException, a "
-        "negative body length, the same three followed in the same read by a valid response for another pending "
+        "negative body length, a ProtocolException carrying the 'unsupported protocol version' text servers use for "
+        "frames of a version they do not speak, an orderly EOF (the reactor calls close(), not defunct()), the same "
+        "decode/protocol failures followed in the same read by a valid response for another pending "
         "stream, an idle-heartbeat that is never answered, an explicit close(), Session/pool shutdown; the 'bulk' part "
         "has 99-103 requests pending at the failure (CALLBACK_ERR_THREAD_THRESHOLD: the helper thread runs as a "
         "virtual thread); the 'paging' part has DSE continuous-paging sessions open on the connection; afterwards "
@@ -141,6 +143,7 @@ class C10Observer(SP.Observer):
         self.cp_at_failure = 0
         self.causes = set()
         self.thread_path = False
+        self.checked_injected = set()
 
     @staticmethod
     def cause(snap):
@@ -188,6 +191,16 @@ class C10Observer(SP.Observer):
                              "%s: connection #%d was closed (%s) while continuous paging session on stream %s was open; "
                              "its on_error was invoked %d times" % (where, c.sim_id, snap["by"], sid, len(log)))
                     return
+        # --- every injected failure does fail the connection
+        for i, (c, kind) in enumerate(m.injected):
+            if i in self.checked_injected:
+                continue
+            self.checked_injected.add(i)
+            if not (c.is_closed or c.is_defunct):
+                ctx.fail(["C10.failure.connection-still-usable", kind.split("+")[0]],
+                         "%s: after '%s' on connection #%d the connection is neither defunct nor closed (%d handlers "
+                         "still registered)" % (where, kind, c.sim_id, len(c._requests)))
+                return
         # --- a dead connection refuses further sends
         for c in list(m.net.conns):
             if (c.is_closed or c.is_defunct) and c.sim_id not in m.probed and getattr(c, "close_snapshot", None):
@@ -299,7 +312,7 @@ def s_general(gran, pvs, **kw):
 def s_bulk():
     fail = st.one_of(
         st.tuples(st.just("answer"), st.integers(0, 110), st.sampled_from(SP.FAIL_ANSWERS)),
-        st.tuples(st.just("kill"), st.just(0), st.sampled_from(["close", "reset", "explicit"])),
+        st.tuples(st.just("kill"), st.just(0), st.sampled_from(["close", "reset", "eof", "explicit"])),
         st.tuples(st.just("session_shutdown")),
     )
     pre = st.one_of(
@@ -340,8 +353,8 @@ def s_paging(gran="blocking"):
     fail = st.one_of(
         st.tuples(st.just("answer"), st.integers(0, 5), st.sampled_from(SP.FAIL_ANSWERS)),
         st.tuples(st.just("answer"), st.integers(0, 5), st.sampled_from(SP.FAIL_ANSWERS)),
-        st.tuples(st.just("kill"), st.integers(0, 1), st.sampled_from(["close", "reset", "explicit"])),
-        st.tuples(st.just("kill"), st.integers(0, 1), st.sampled_from(["close", "reset", "explicit"])),
+        st.tuples(st.just("kill"), st.integers(0, 1), st.sampled_from(["close", "reset", "eof", "explicit"])),
+        st.tuples(st.just("kill"), st.integers(0, 1), st.sampled_from(["close", "reset", "eof", "explicit"])),
         st.tuples(st.just("pool_shutdown")),
         st.tuples(st.just("session_shutdown")),
     )
